@@ -38,7 +38,12 @@ func explain(eng *Engine, o *Options, res *FuncResult, ob *Obligation) {
 	if len(leaves) <= 1 {
 		return
 	}
+	shown := 0
 	for i, l := range leaves {
+		if shown >= 8 {
+			fmt.Println("      ... (more conjuncts not shown)")
+			break
+		}
 		o2 := *ob
 		o2.Goal = Implies(l[0], l[1])
 		o2.Name = fmt.Sprintf("%s#conj%d", ob.Name, i)
@@ -51,6 +56,7 @@ func explain(eng *Engine, o *Options, res *FuncResult, ob *Obligation) {
 			if !l[0].IsTrue() {
 				g = trunc(l[0].S, 200) + "  ==>  "
 			}
+			shown++
 			fmt.Printf("      FAILING CONJUNCT (%s): %s%s\n", r.Status, g, trunc(l[1].S, 400))
 		}
 	}
